@@ -93,6 +93,13 @@ func Make(format string, r *rand.Rand) Sample {
 					s.Tokens = append(s.Tokens, t)
 				}
 			}
+			if i == 0 {
+				// a merged region below the data whose covered cells are not stored
+				t := tk.Next()
+				sh.Cells = append(sh.Cells, ooxml.XCell{Row: 7, Col: 0, Kind: ooxml.XInline, V: t})
+				sh.Merges = append(sh.Merges, ooxml.XMerge{C0: 0, R0: 7, C1: 1, R1: 8})
+				s.Tokens = append(s.Tokens, t)
+			}
 			wb.Sheets = append(wb.Sheets, sh)
 		}
 		s.Data = ooxml.PartZip(wb.Members(r))
